@@ -442,3 +442,157 @@ Definition model_scenario (sc : scenario) : scenario :=
           end
       end
   end.
+
+(* ------------------------------------------------------------------------------------------ whole trees delivered: the root *)
+(* The ROOT as a first-class delivered change.  A root delivery hands a raw root (honest or mutated), optionally some
+   changes built against it and the heads the sender claims, to one of the real construction paths:
+     0  CreateStorage (eager: CreateStorageTx verifies the root) + BuildObjectTree [+ AddRawChanges if changes <> []]
+     1  CreateStorageWithDeferredCreation (nothing verified, nothing written) + BuildObjectTree [+ AddRawChanges]
+     2  ValidateRawTreeDefault: deferred storage, BuildEmptyDataObjectTree, AddRawChanges(changes, heads) (which calls
+        Storage.AddAll even when nothing was added: the deferred storage is created -- CreateStorageTx -- inside that
+        transaction), heads comparison, ErrDerived for a root-only derived tree; then BuildObjectTree over the
+        returned tree's storage (what synctree does with the collector's tree)
+     3  ValidateFilterRawTree: HadReadPermissions(own identity) first, BuildEmptyDataKeyFilterableObjectTree,
+        AddRawChanges through the key filter (FilterChanges drops -- does not reject -- a change whose cited record is
+        unknown or whose read key the receiver lacks; modelled only when it drops nothing: [rd_keyed] and every cited
+        record known), NO heads comparison and NO ErrDerived, ErrNoChangeInTree when only the root is attached.
+   buildObjectTree is the same function on every path: rebuildFromStorage (decode, ValidateFullTree = validateChange of
+   the root) and Unmarshall(root, verify = true); that is [build].  The eager CreateStorageTx check is [unmarshal_ok] on
+   the one-element tree [tree0]. *)
+Definition tree0 (root : rawchange) (derived : bool) : atree :=
+  mkAT (rc_id root) derived [root] [] [rc_id root] (rc_id root) [rc_id root].
+
+Record rootdel := mkRD {
+  rd_path : N;
+  rd_acl_len : nat;               (* ACL records (root included) the receiver holds *)
+  rd_root : rawchange;            (* the delivered root: decoded fields + validity flags of the delivered bytes *)
+  rd_derived : bool;              (* RootChange.IsDerived of the delivered bytes *)
+  rd_changes : list rawchange;    (* payload.Changes *)
+  rd_heads : list N;              (* payload.Heads (paths 2, 3) / NewHeads (paths 0, 1) *)
+  rd_keyed : bool;                (* every delivered change names a read key (ReadKeyId) the receiver's ACL state holds:
+                                     computed by the harness from the delivered bytes and AclState.Keys(); with it and
+                                     all cited records known, FilterChanges / validateKeys of path 3 let everything through *)
+  (* observed *)
+  rd_live : bool;                 (* a live ObjectTree was returned *)
+  rd_rebuilt : bool;              (* ... and BuildObjectTree over its storage gave the same heads and ids (paths 2, 3) *)
+  rd_lheads : list N;             (* Heads() of the live tree, [] if none *)
+  rd_iter : list N;               (* IterateRoot ids of the live tree, [] if none *)
+  rd_stored : list N;             (* what a FRESH NewStorage(root id) finds in the database afterwards, [] = no such tree *)
+  rd_added : list N               (* ids in memory or on disk other than the root *)
+}.
+
+Record rootworld := mkRW {
+  rw_me : acct; rw_owner : acct; rw_aclroot : rid; rw_recs : list raw;
+  rw_hists : list (acct * list (rid * perm));
+  rw_dels : list rootdel
+}.
+
+(* --- specification over observed behaviour *)
+(* what CreateStorageTx promises for the root it writes: authenticity *)
+Definition authentic (derived : bool) (c : rawchange) : bool :=
+  rc_cid_ok c && rc_canon c && (derived || rc_sig_ok c).
+
+Definition spec_rootdel (ids : list rid) (sts : list state) (d : rootdel) : bool :=
+  let root := rd_root d in
+  let r := rc_id root in
+  let root_ok := auth_ok ids sts (rd_acl_len d) r (rd_derived d) [root] root in
+  let known := flat_map (fun i => match find_rc (rd_changes d) i with Some c => [c] | None => [] end) (rd_added d) ++ [root] in
+  (* in memory: a live tree only for a root whose id is the hash of its bytes, canonical, signed by the identity it
+     names (derived roots excepted), that identity holding write permission at the cited record, which the receiver knows *)
+  (if rd_live d || rd_rebuilt d then root_ok else is_nil (rd_lheads d) && is_nil (rd_iter d)) &&
+  (* on disk: the same; on path 0 the caller itself created the storage before the tree was validated, and
+     CreateStorage promises authenticity only *)
+  (if is_nil (rd_stored d) then true else if rd_path d =? 0 then authentic (rd_derived d) root else root_ok) &&
+  (* whatever else is in memory or on disk came with the delivery, under an authentic authorised root, and every
+     delivered copy of it is authentic and authorised *)
+  subset_N (rd_iter d ++ rd_stored d) (r :: rd_added d) &&
+  subset_N (rd_added d) (rc_ids (rd_changes d)) &&
+  (is_nil (rd_added d) || root_ok) &&
+  forallb (fun i => forallb (auth_ok ids sts (rd_acl_len d) r (rd_derived d) known) (copies (rd_changes d) i)) (rd_added d).
+
+Definition spec_roots (rw : rootworld) : bool :=
+  match acl_states (rw_me rw) (rw_owner rw) (rw_aclroot rw) (rw_recs rw) with
+  | None => false
+  | Some sts => forallb (spec_rootdel (acl_ids (rw_aclroot rw) (rw_recs rw)) sts) (rw_dels rw)
+  end.
+
+(* --- the model *)
+(* AclState.HadReadPermissions(identity) *)
+Definition had_read (a : aclv) (who : acct) : bool :=
+  match mget who (accounts (av_state a)) with
+  | None => false
+  | Some x => existsb (fun rp => negb (snd rp =? pNone)) (a_hist x)
+  end.
+
+Record rootout := mkRO { ro_live : bool; ro_heads : list N; ro_iter : list N; ro_stored : list N; ro_added : list N }.
+Definition ro_none : rootout := mkRO false [] [] [] [].
+
+(* None = the model makes no prediction (a change whose snapshot base is not the root; the key filter of path 3) *)
+Definition model_rootdel (me : acct) (a : aclv) (d : rootdel) : option rootout :=
+  let root := rd_root d in
+  let r := rc_id root in
+  let eager := rd_path d =? 0 in
+  if (rd_path d =? 3) && negb (had_read a me) then Some ro_none
+  else
+    match build a root (rd_derived d) with
+    | None =>
+        (* path 0: CreateStorage has already written the root if it is authentic *)
+        Some (if eager && unmarshal_ok (tree0 root (rd_derived d)) root then mkRO false [] [] [r] [] else ro_none)
+    | Some t0 =>
+        if rd_path d <? 2 then
+          match rd_changes d with
+          | [] => Some (mkRO true (at_heads t0) (iter_seq t0) (if eager then at_stored t0 else []) [])
+          | cs =>
+              let '(t1, res) := accept a t0 cs in
+              match res with
+              | RUnmodelled => None
+              | ROk added => Some (mkRO true (at_heads t1) (iter_seq t1) (at_stored t1) added)
+              | RErr _ => Some (mkRO true (at_heads t1) (iter_seq t1) (if eager then at_stored t1 else []) [])
+              end
+          end
+        else if rd_path d =? 2 then
+          let '(t1, res) := accept a t0 (rd_changes d) in
+          match res with
+          | RUnmodelled => None
+          | RErr _ => Some ro_none
+          | ROk added =>
+              if negb (sameset (at_heads t1) (rd_heads d)) then Some (mkRO false [] [] (at_stored t1) added)
+              else if rd_derived d && Nat.eqb (length (at_att t1)) 1 then Some (mkRO false [] [] (at_stored t1) added)
+              else Some (mkRO true (at_heads t1) (iter_seq t1) (at_stored t1) added)
+          end
+        else
+          match rd_changes d with
+          | [] => Some (mkRO false [] [] (at_stored t0) [])       (* AddAll(nothing) created the storage; ErrNoChangeInTree *)
+          | cs =>
+              if rd_keyed d && forallb (fun c => has_head (av_ids a) (rc_head c)) cs then
+                let '(t1, res) := accept a t0 cs in
+                match res with
+                | RUnmodelled => None
+                | RErr _ => Some ro_none
+                | ROk added =>
+                    if Nat.eqb (length (at_att t1)) 1 then Some (mkRO false [] [] (at_stored t1) added)
+                    else Some (mkRO true (at_heads t1) (iter_seq t1) (at_stored t1) added)
+                end
+              else None                                           (* the filter drops something: no prediction *)
+          end
+    end.
+
+Definition rd_with (d : rootdel) (o : rootout) : rootdel :=
+  mkRD (rd_path d) (rd_acl_len d) (rd_root d) (rd_derived d) (rd_changes d) (rd_heads d) (rd_keyed d)
+       (ro_live o) (ro_live o) (ro_heads o) (ro_iter o) (ro_stored o) (ro_added o).
+
+(* the root world the model produces for the inputs of [rw] (deliveries without a prediction: nothing happened) *)
+Definition model_rootworld (rw : rootworld) : rootworld :=
+  let ids := acl_ids (rw_aclroot rw) (rw_recs rw) in
+  mkRW (rw_me rw) (rw_owner rw) (rw_aclroot rw) (rw_recs rw) (rw_hists rw)
+       (match acl_states (rw_me rw) (rw_owner rw) (rw_aclroot rw) (rw_recs rw) with
+        | None => []
+        | Some sts =>
+            map (fun d => match view_at ids sts (rd_acl_len d) with
+                          | None => rd_with d ro_none
+                          | Some a => match model_rootdel (rw_me rw) a d with
+                                      | Some o => rd_with d o
+                                      | None => rd_with d ro_none
+                                      end
+                          end) (rw_dels rw)
+        end).
